@@ -8,10 +8,11 @@ import Imeta.Driver.ImageType
 import Imeta.Driver.Enums
 import Imeta.Driver.Codec
 import Imeta.Driver.Hash
+import Imeta.Driver.Jpeg
 open Imeta
 
 def handlers : List (List String → Option String) :=
-  [Tiff.handle, ImageType.handle, EnumsDrv.handle, CodecDrv.handle, HashDrv.handle]
+  [Tiff.handle, ImageType.handle, EnumsDrv.handle, CodecDrv.handle, HashDrv.handle, JpegDrv.handle]
 
 def dispatch (line : String) : String :=
   let toks := (line.trimAscii.toString.splitOn " ").filter (· ≠ "")
